@@ -195,7 +195,7 @@ func call(f string, a ...Expr) Expr { return Expr{K: "call", V: f, A: a} }
 var callsOf = map[string][][]string{
 	"int":    {{"abs", "int"}, {"max", "int", "int"}, {"min", "int", "int"}, {"first", "intlist"}, {"last", "intlist"}, {"incp", "*int"}, {"addp", "*int", "int"}, {"len", "list"}, {"len", "string"}, {"len", "map"}, {"int", "numstr"}, {"int", "int"}, {"add", "int", "int"}, {"sum", "int", "int", "int"}},
 	"float":  {{"round", "float", "digits"}, {"abs", "float"}, {"half", "float"}, {"scale", "float", "float"}},
-	"string": {{"first", "strlist"}, {"last", "strlist"}, {"fmtDate", "*time"}, {"upp", "*string"}, {"pname", "*rec"}, {"typ", "*any"}, {"typ", "anyval"}, {"kinds", "anyval", "anyval"}, {"divide", "numval", "numval"}, {"upper", "string"}, {"lower", "string"}, {"trim", "string"}, {"string", "int"}, {"string", "fracfloat"}, {"string", "string"}, {"greet", "string"}, {"ctxup", "string"}, {"title", "lowstr"}, {"pick", "bool", "string", "string"}},
+	"string": {{"first", "strlist"}, {"last", "strlist"}, {"fmtDate", "*time"}, {"upp", "*string"}, {"pname", "*rec"}, {"typ", "*any"}, {"recname", "recval"}, {"typ", "anyval"}, {"kinds", "anyval", "anyval"}, {"divide", "numval", "numval"}, {"upper", "string"}, {"lower", "string"}, {"trim", "string"}, {"string", "int"}, {"string", "fracfloat"}, {"string", "string"}, {"greet", "string"}, {"ctxup", "string"}, {"title", "lowstr"}, {"pick", "bool", "string", "string"}},
 	"bool":   {{"isBig", "int"}, {"neg", "bool"}},
 }
 
@@ -207,7 +207,7 @@ func (g *gen) callExpr(t *rapid.T, typ string, nonShared, top bool) Expr {
 		if _, bound := fnVars[c[0]]; bound && g.fn {
 			continue // the data binds this name: calling it is unspecified (the variable shadows the function)
 		}
-		if g.cat != nil && len(c) > 1 && (strings.HasPrefix(c[1], "*") || strings.HasSuffix(c[1], "list") && c[1] != "list") {
+		if g.cat != nil && len(c) > 1 && (strings.HasPrefix(c[1], "*") || c[1] == "recval" || strings.HasSuffix(c[1], "list") && c[1] != "list") {
 			continue // the pointer-typed data and the xs / ss lists live in the map environments
 		}
 		if funcs[c[0]].shared || nonShared {
@@ -231,6 +231,8 @@ func (g *gen) callExpr(t *rapid.T, typ string, nonShared, top bool) Expr {
 			}
 		case "lowstr":
 			e.A = append(e.A, Expr{K: "path", V: pick(t, "lowpath", g.c().lowstr)})
+		case "recval":
+			e.A = append(e.A, p(pick(t, "recval", []string{"st", "rs[0]"})))
 		case "digits":
 			e.A = append(e.A, Expr{K: "int", V: pick(t, "digits", []string{"0", "1", "2"})})
 		case "intlist":
@@ -459,7 +461,12 @@ func (g *gen) negCase(envID int, path string) Case {
 }
 
 func (g *gen) genExprCase(t *rapid.T) Case {
+	// the replaced default functions change what the model computes: the flag is on while the
+	// tree is built (typed construction consults the model) and recorded in the case
+	overrideOn = rapid.IntRange(0, 5).Draw(t, "override") == 0
+	defer func() { overrideOn = false }()
 	c := g.genExprCase0(t)
+	c.Override = overrideOn && (c.Fam == "expr" || c.Fam == "pipe")
 	if rapid.IntRange(0, 2).Draw(t, "scoped") == 0 {
 		c = g.addScope(t, c)
 	}
@@ -475,6 +482,11 @@ func (g *gen) genExprCase(t *rapid.T) Case {
 
 // afterFailure puts a failing render built from the case's own source in front of it.
 func afterFailure(t *rapid.T, c Case) Case {
+	if (c.Fam == "expr" || c.Fam == "pipe" || c.Fam == "path") && !c.Late && c.Env != structEnv {
+		c.Deliver = pick(t, "deliver", []string{"", "", "assign", "fragment"})
+	} else if c.Env == structEnv && !c.Late {
+		c.Deliver = pick(t, "deliver", []string{"", "fragment"})
+	}
 	if (c.Fam == "expr" || c.Fam == "pipe") && rapid.IntRange(0, 5).Draw(t, "after") == 0 {
 		c.After = pick(t, "afterwhere", []string{"fresh", "same"})
 	}
@@ -539,7 +551,7 @@ var pipeInits = []string{
 	"z10", "z08", "z007", "z0s", "sp", "sp2", "spl", "spt",
 	`errs['user[email]']`, `errs["tags[]"]`, `errs['a.b']`, `errs['two words']`, `errs["it's"]`, `errs['say "hi"']`, `errs['item[0][id]']`, `errs['sub[x]'].s`, `errs["sub[x]"]["n"]`, `errs['ok[]']`, `errs['sub[x]']`,
 	"xs[ix]", "ss[ix]", "m[kk]", "us[ix].name", "m[kb]",
-	"umax", "u63", "imax", "imin", "u32", "fbig", "negz",
+	"umax", "u63", "imax", "imin", "u32", "fbig", "negz", "sv", "rs[0]",
 	"post.PublishedAt", "pt.at", "ts", "post.Views", "pm.k", `pm['k']`, "ptrs[1]", "pi", "post.Slug", "post.Author", "prec",
 	"s", "h", "e", "num", "pad", "m.name", `m["name"]`, `m['name']`, "m.inner.s", "ss[0]", "st.Name", "st.In.S", "us[0].name",
 	"t", "u", "m.ok", "bs[0]", "st.Ok",
@@ -767,12 +779,16 @@ func pipeCase(envID int, init string, st []Stage, final any) Case {
 }
 
 func (g *gen) genPipeCase(t *rapid.T) Case {
+	overrideOn = rapid.IntRange(0, 4).Draw(t, "override") == 0
+	defer func() { overrideOn = false }()
 	envID := rapid.IntRange(0, nEnvs-1).Draw(t, "env")
 	env := envOf(envID)
 	init := pick(t, "init", pipeInits)
 	n := pick(t, "len", []int{1, 2, 2, 3, 3})
 	st, final := g.chain(t, env, init, n, true)
-	return afterFailure(t, respell(t, pipeCase(envID, init, st, final)))
+	c := afterFailure(t, respell(t, pipeCase(envID, init, st, final)))
+	c.Override = overrideOn
+	return c
 }
 
 // ---------------------------------------------------------------- family C: errors
@@ -1008,6 +1024,12 @@ func classify(c Case) (bool, []string) {
 	if c.After != "" {
 		cls = append(cls, "after-failure="+c.After)
 	}
+	if c.Fam != "err" {
+		cls = append(cls, "deliver="+map[string]string{"": "Fill", "assign": "Assign key by key", "fragment": "Vue.RenderFragment"}[c.Deliver])
+	}
+	if c.Override {
+		cls = append(cls, "default functions replaced by registered ones")
+	}
 	if c.Late {
 		cls = append(cls, "A:functions registered after a first evaluation on the same engine")
 	}
@@ -1032,6 +1054,12 @@ func classify(c Case) (bool, []string) {
 		}
 	}
 	switch c.Fam {
+	case "absent":
+		cls = append(cls, "A:absent variable")
+		if _, isFn := funcs[c.E.V]; isFn {
+			cls = append(cls, "A:absent variable named like a function")
+		}
+		return true, cls
 	case "path":
 		cls = append(cls, "A:own-syntax path")
 		if dotIndex(c.E.V) {
